@@ -132,7 +132,8 @@ Record state := {
   st_clos : list closure_rec;
   st_globals : list (str * value);
   st_log : list (str * list tree);               (* native calls, most recent first *)
-  st_steps : N }.
+  st_steps : N;
+  st_notes : list N }.                           (* remarks for the checker, see [note codes] *)
 
 Inductive errkind :=
 | EInvalidArgument | EVarNotFound | EProcedureNotFound | ETaskFailure | EOther (n : N).
@@ -163,17 +164,22 @@ Fixpoint upd {A} (l : list A) (i : nat) (x : A) : list A :=
   end.
 
 Definition set_cells c (s : state) := {| st_cells := c; st_heap := st_heap s; st_clos := st_clos s;
-  st_globals := st_globals s; st_log := st_log s; st_steps := st_steps s |}.
+  st_globals := st_globals s; st_log := st_log s; st_steps := st_steps s; st_notes := st_notes s |}.
 Definition set_heap h (s : state) := {| st_cells := st_cells s; st_heap := h; st_clos := st_clos s;
-  st_globals := st_globals s; st_log := st_log s; st_steps := st_steps s |}.
+  st_globals := st_globals s; st_log := st_log s; st_steps := st_steps s; st_notes := st_notes s |}.
 Definition set_clos c (s : state) := {| st_cells := st_cells s; st_heap := st_heap s; st_clos := c;
-  st_globals := st_globals s; st_log := st_log s; st_steps := st_steps s |}.
+  st_globals := st_globals s; st_log := st_log s; st_steps := st_steps s; st_notes := st_notes s |}.
 Definition set_globals g (s : state) := {| st_cells := st_cells s; st_heap := st_heap s; st_clos := st_clos s;
-  st_globals := g; st_log := st_log s; st_steps := st_steps s |}.
+  st_globals := g; st_log := st_log s; st_steps := st_steps s; st_notes := st_notes s |}.
 Definition set_log l (s : state) := {| st_cells := st_cells s; st_heap := st_heap s; st_clos := st_clos s;
-  st_globals := st_globals s; st_log := l; st_steps := st_steps s |}.
+  st_globals := st_globals s; st_log := l; st_steps := st_steps s; st_notes := st_notes s |}.
 Definition bump (s : state) := {| st_cells := st_cells s; st_heap := st_heap s; st_clos := st_clos s;
-  st_globals := st_globals s; st_log := st_log s; st_steps := N.succ (st_steps s) |}.
+  st_globals := st_globals s; st_log := st_log s; st_steps := N.succ (st_steps s); st_notes := st_notes s |}.
+
+(* note codes: 12 a Get past the end of a table that has an entry under the key nil (the row is
+   {key: nil, value: nil}; the implementation answers with the value stored under nil) *)
+Definition add_note (n : N) (s : state) := {| st_cells := st_cells s; st_heap := st_heap s; st_clos := st_clos s;
+  st_globals := st_globals s; st_log := st_log s; st_steps := st_steps s; st_notes := n :: st_notes s |}.
 
 Definition alloc_cell (v : value) (s : state) : nat * state :=
   (length (st_cells s), set_cells (st_cells s ++ [v]) s).
@@ -680,7 +686,11 @@ Section Eval.
                                   | Some (k, v) => (of_key k, v)
                                   | None => (VNil, VNil)
                                   end in
-                   let '(p, s') := alloc_table (row_table k v) s in
+                   let s0 := match nth_error tb (Z.to_nat i), m_get tb KNil with
+                             | None, Some _ => add_note 12 s
+                             | _, _ => s
+                             end in
+                   let '(p, s') := alloc_table (row_table k v) s0 in
                    ok [VTable p] e s'
           | _ => err EInvalidArgument e s
           end)
@@ -974,18 +984,20 @@ Fixpoint eval (P : list fentry) (host : list str) (limit : N) (fuel : nat) (t : 
 Inductive okind := KOk | KErr (k : errkind).
 Record obs := { ob_kind : okind;
                 ob_globals : list (str * tree);              (* in order of first assignment *)
-                ob_log : list (str * list tree) }.           (* in call order *)
+                ob_log : list (str * list tree);             (* in call order *)
+                ob_notes : list N }.                         (* not an observable: see [note codes] *)
 Inductive presult := PFuel | PUnspec (why : N) | PObs (o : obs).
 
 Definition init_state : state :=
-  {| st_cells := []; st_heap := []; st_clos := []; st_globals := []; st_log := []; st_steps := 0 |}.
+  {| st_cells := []; st_heap := []; st_clos := []; st_globals := []; st_log := []; st_steps := 0; st_notes := [] |}.
 
 Definition step_limit (fuel : nat) : N := (N.of_nat fuel * 64)%N.
 
 Definition observe (k : okind) (s : state) : presult :=
   PObs {| ob_kind := k;
           ob_globals := map (fun nv => (fst nv, to_tree tree_depth (st_heap s) (snd nv))) (st_globals s);
-          ob_log := rev (st_log s) |}.
+          ob_log := rev (st_log s);
+          ob_notes := st_notes s |}.
 
 Definition program_of (m : module) : option (list fentry * nat) :=
   match flatten 64 (add_std m) [] with
